@@ -780,6 +780,15 @@ func (h *H) judgeJobs(crashed bool) {
 			if len(jr.Starts) == 0 {
 				h.viol("C01", "C01.lost", "an accepted job was never executed")
 				h.viol("C03", "C03.stuck", "an accepted job was never started although the worker is running and idle")
+				if jr.W != nil && jr.W.FinalStatus == "Running" {
+					h.viol("C14", "C14.running-stuck", "the worker reports Running at rest and leaves an accepted job unstarted")
+					for _, c := range h.Ctls {
+						if c.W == jr.W && (c.Op == "Resume" || c.Op == "Restart") && c.Done && c.Err == nil {
+							h.viol("C09", "C09.resume-stall", "after Resume / Restart a job that was pending is never processed")
+							break
+						}
+					}
+				}
 			} else if len(jr.Ends) == 0 {
 				h.viol("C03", "C03.stuck", "a started job never finished")
 			}
